@@ -4,8 +4,8 @@ from harness.props import c01
 
 ID = 'C13'
 MODULE = 'Gpv.Props.C13'
-MODULES = ['Gpv.Props.C13', 'Gpv.Props.C13Stage']
-THEOREMS = core.theorems('C13', 'C13Stage')
+MODULES = ['Gpv.Props.C13', 'Gpv.Props.C13Stage', 'Gpv.Props.C13Fail']
+THEOREMS = core.theorems('C13', 'C13Stage', 'C13Fail')
 RULE = ('pipe_info() is read at every hand-over during partial, complete, early-terminated (close) and repeated consumption (a second '
         'stream of the same stage started with the counters the first one left), serial and parallel, with dropped Nones and forced '
         'schedules; oracle: yielded = values handed over so far, processed = elements whose result was taken (the current one '
@@ -36,8 +36,15 @@ def gen_cases(ctx):
             prior = rng.randint(1, n)
             kept = sum(1 for t in table[:prior] if not (t[0] == 'n' and cfg['skipNone']))
             pre = (prior, kept)
+        label = 'info'
+        if prior is None and rng.random() < 0.33:
+            # the function fails for one element: the failing element's result is never taken, so it is not counted —
+            # in a worker exactly as in-process — and the stage keeps correct counts for what comes later
+            table[rng.randrange(n)] = ['e', rng.randrange(100)]
+            demand = ['N*', 'I']
+            label = 'info-failure'
         cases.append(dict(cfg=cfg, n=n, tail=None, table=table, fkind='module', kwargs={},
-                          schedule=dict(priority=prio, quiet_ms=15) if forced else None, demand=demand, label='info',
+                          schedule=dict(priority=prio, quiet_ms=15) if forced else None, demand=demand, label=label,
                           pre_counts=None if prior else list(pre), prior_n=prior, pre_expected=list(pre), pre_model=pre))
     return cases
 
@@ -80,7 +87,18 @@ def judge(ctx, case, res, mout, info_lines):
                 ctx.fail('pipe-info-counts-wrong', 'holding output %d (element %d): processed=%d yielded=%d, expected %d/%d' % (
                     nv, j, r['processed'], r['yielded'], p0 + j + 1, y0 + nv), small)
                 return
+        elif r['kind'] == 'raised':
+            fe = next((i for i, t in enumerate(case['table']) if t[0] == 'e'), None)
+            if fe is None:
+                continue          # an exception nobody asked for: reported by the output oracle of C01/C03
+            kept = sum(1 for t in case['table'][:fe] if not (t[0] == 'n' and skip))
+            if (r['processed'], r['yielded']) != (p0 + fe, y0 + kept):
+                ctx.fail('pipe-info-counts-failed-element', 'after the function failed for element %d: processed=%d yielded=%d, expected %d/%d '
+                         '(the failing element\'s result was never taken)' % (fe, r['processed'], r['yielded'], p0 + fe, y0 + kept), small)
+                return
         elif r['kind'] == 'stop':
+            if any(t[0] == 'e' for t in case['table']):
+                continue          # next() after the failure: counts stay as they were (checked above)
             kept = sum(1 for t in case['table'] if not (t[0] == 'n' and skip))
             if (r['processed'], r['yielded']) != (p0 + case['n'], y0 + kept):
                 ctx.fail('pipe-info-final-counts-wrong', 'after exhaustion processed=%d yielded=%d, expected %d/%d' % (
@@ -139,14 +157,74 @@ def check(ctx):
         P(v)
     if (P.pipe_info().processed, P.pipe_info().yielded) != (0, 0):
         ctx.fail('element-calls-counted', 'single-element calls changed pipe_info to %s' % P.pipe_info(), dict(element_calls=True))
+    wrapped_stage_cases(ctx)
     from harness.props import multistream
     multistream.run(ctx, ctx.scale(40, 400), {'counters'}, 'multi-C13', iters=True)
+
+
+def _drop_odd(x):
+    return None if x % 2 else x
+
+
+def _wrapped(nw_base, nw_variant, n1, n2, when):
+    """a stage that wraps another stage object (runs in its own process group)"""
+    from generatorpipeline import pipeline
+    info = lambda P: (P.pipe_info().processed, P.pipe_info().yielded)   # noqa
+    base = pipeline(nw_base)(_drop_odd)
+    early = pipeline(nw_variant)(base) if when == 'before' else None     # wrapped while the inner stage is still unused
+    out1 = list(base(iter(range(n1))))
+    variant = early if early is not None else pipeline(nw_variant)(base)
+    res = dict(base_after_own=info(base), variant_fresh=info(variant), out1=out1)
+    stream = variant(iter(range(n2)))
+    held = []
+    for v in stream:
+        held.append((v, info(variant), info(base)))
+    res.update(held=held, variant_end=info(variant), base_end=info(base))
+    return res
+
+
+def wrapped_stage_cases(ctx):
+    """a stage is a stage: one built around another (already used) stage object starts at 0/0 and counts its own streams only;
+    the inner stage sees single-element calls, which do not count"""
+    rng = ctx.rng
+    for _ in range(ctx.scale(8, 40)):
+        nwb, nwv = rng.choice([0, 0, 2]), rng.choice([0, 0, 2])
+        n1, n2 = rng.choice([1, 4, 7]), rng.choice([1, 3, 6])
+        when = rng.choice(['after', 'after', 'before'])
+        case = dict(wrapped_stage=True, nworkers_inner=nwb, nworkers_outer=nwv, n_inner_stream=n1, n_outer_stream=n2, wrapped=when)
+        ctx.case(('wrapped', nwb, nwv, n1, n2, when), n1 >= 2 and when == 'after', sample=case)
+        ctx.count('wrapped_stage')
+        st, r = pipelib.isolated(_wrapped, (nwb, nwv, n1, n2, when), timeout=40)
+        if st == 'timeout':
+            st, r = pipelib.isolated(_wrapped, (nwb, nwv, n1, n2, when), timeout=40)
+        if st != 'ok':
+            ctx.fail('wrapped-stage-fails', 'a stage wrapped around a stage: %s %s' % (st, str(r)[-300:]), case)
+            continue
+        own = (n1, (n1 + 1) // 2)
+        if r['base_after_own'] != own or r['out1'] != [x for x in range(n1) if x % 2 == 0]:
+            ctx.fail('pipe-info-final-counts-wrong', 'inner stage after its own stream: %s, expected %s' % (r['base_after_own'], own), case)
+            continue
+        if r['variant_fresh'] != (0, 0):
+            ctx.fail('new-stage-inherits-counts', 'a stage that has not seen any stream reports %s (it wraps a stage that had processed %s)' % (
+                r['variant_fresh'], own), case)
+            continue
+        exp = [(x, (x + 1, x // 2 + 1), own) for x in range(n2) if x % 2 == 0]
+        if r['held'] != exp or r['variant_end'] != (n2, (n2 + 1) // 2) or r['base_end'] != own:
+            ctx.fail('wrapped-stage-counts-wrong', 'outer stage over %d elements: held %s end %s, inner stage %s; expected %s, %s, %s' % (
+                n2, r['held'], r['variant_end'], r['base_end'], exp, (n2, (n2 + 1) // 2), own), case)
 
 
 def replay(ctx, data):
     case = data['case']
     if case.get('element_calls'):
         check(ctx)
+        return
+    if case.get('wrapped_stage'):
+        wrapped_stage_cases(ctx)
+        return
+    if 'streams' in case:
+        from harness.props import multistream
+        multistream.replay(ctx, case)
         return
     case['pre_model'] = tuple(case['pre_expected'])
     for c, r, m in c01.execute([case], workers=1):
